@@ -1,0 +1,17 @@
+//go:build verif
+// +build verif
+
+package xpoa
+
+import "github.com/xuperchain/xupercore/kernel/consensus/base"
+
+// VerifMinerScheduling exposes the package-private slot schedule of a consensus instance
+// created by NewXpoaConsensus (add-only test hook, build tag verif).
+func VerifMinerScheduling(c base.ConsensusImplInterface, timestamp int64, length int) (term int64, pos int64, blockPos int64, ok bool) {
+	x, isXpoa := c.(*xpoaConsensus)
+	if !isXpoa || x == nil || x.election == nil {
+		return 0, 0, 0, false
+	}
+	term, pos, blockPos = x.election.minerScheduling(timestamp, length)
+	return term, pos, blockPos, true
+}
